@@ -43,6 +43,17 @@ type File struct {
 	Path     string
 	Pkg      string
 	Services []Service
+	// Messages are message types the file defines itself (full name
+	// Pkg.Name); services may use them as request / reply types.
+	Messages []*descriptorpb.DescriptorProto
+}
+
+// StrField / I64Field build fields for File.Messages.
+func StrField(name string, num int32) *descriptorpb.FieldDescriptorProto {
+	return fld(name, num, descriptorpb.FieldDescriptorProto_TYPE_STRING, "", false)
+}
+func I64Field(name string, num int32) *descriptorpb.FieldDescriptorProto {
+	return fld(name, num, descriptorpb.FieldDescriptorProto_TYPE_INT64, "", false)
 }
 
 func sp(s string) *string { return &s }
@@ -272,14 +283,22 @@ func findIn(fd protoreflect.FileDescriptor, n protoreflect.FullName) protoreflec
 // Proto renders the file as a FileDescriptorProto.
 func (f *File) Proto() *descriptorpb.FileDescriptorProto {
 	deps := map[string]bool{"google/api/annotations.proto": true}
+	local := map[string]bool{}
+	for _, m := range f.Messages {
+		local[f.Pkg+"."+m.GetName()] = true
+	}
 	addDep := func(full string) {
+		if local[full] {
+			return
+		}
 		md := Msg(full)
 		deps[md.ParentFile().Path()] = true
 	}
 	fdp := &descriptorpb.FileDescriptorProto{
-		Name:    sp(f.Path),
-		Package: sp(f.Pkg),
-		Syntax:  sp("proto3"),
+		Name:        sp(f.Path),
+		Package:     sp(f.Pkg),
+		Syntax:      sp("proto3"),
+		MessageType: f.Messages,
 	}
 	for _, s := range f.Services {
 		sdp := &descriptorpb.ServiceDescriptorProto{Name: sp(s.Name)}
